@@ -20,8 +20,9 @@ UnionFind.  Every method on the whitelist is read IMPERATIVELY and compiled to a
   `self._elts[i]`; `components()` imperatively: `roots = self.roots()`, `dict((k, v) for i, r in enumerate(<local list>))` / the
   dict comprehension, `[[] for _ in <local list>]`, `d[k]` on a local dict (KeyError = none), `for e in self._elts:` with local
   assignments, calls and ONE local list of lists mutated by `L[i].append(x)` (IndexError = none) -> the fold `<m>For<k>Step`.
-  `component_mapping()` uses a dict of sets: it is extracted as a normalised SHAPE (statement list after alpha-renaming of the
-  locals) into a descriptor table.
+  round 5: `component_mapping()` imperatively: a local `{}` (insertion-ordered dict whose values are sets), `D.setdefault(k, set()).add(x)`
+  inside the loop over `self._elts` (`dsAdd`), `for comp in D.values(): C.update({x: comp for x in comp})` (`dsUpdate`); `__setitem__`
+  (`self._elts[i] = x`). A site that raises overwrites its Generated file with a stub, so that nothing of an earlier tree stays on disk.
 
 Tolerated respellings (normalised away before compiling, so the generated text and the bridges do not change):
   renamed locals / parameters; `not a == b` = `a != b`; `not a in b` = `a not in b`; `a > b` = `b < a`; `a >= b` = `b <= a`;
@@ -41,9 +42,10 @@ PQ_FILE = "mouette/utils/priority_queue.py"
 FIELDS = {"_elts": "elts", "_indx": "indx", "_par": "par", "_siz": "siz", "_next": "next", "n_elts": "nElts", "n_comps": "nComps"}
 LISTS = {"_elts", "_par", "_siz"}
 COUNTERS = {"_next", "n_elts", "n_comps"}
-LEAN_NAME = {"__len__": "len", "__contains__": "contains", "__init__": "ctor", "__getitem__": "getitem"}
+LEAN_NAME = {"__len__": "len", "__contains__": "contains", "__init__": "ctor", "__getitem__": "getitem", "__setitem__": "setitem",
+             "component_mapping": "componentMapping"}
 EXC = {"ValueError": ".valueError", "KeyError": ".keyError", "IndexError": ".indexError", "TypeError": ".typeError"}
-TY = {"nat": "Nat", "bool": "Bool", "unit": "Unit", "natlist": "List Nat", "dict": "Dict", "listlist": "List (List Nat)"}
+TY = {"nat": "Nat", "bool": "Bool", "unit": "Unit", "natlist": "List Nat", "dict": "Dict", "listlist": "List (List Nat)", "dictset": "DictS"}
 
 
 # ------------------------------------------------------------------------------------------------------------------
@@ -303,6 +305,8 @@ class Meth:
                 return f"(setOf {e})", "natlist"
             if isinstance(n.func, ast.Name) and n.func.id == "dict" and len(n.args) == 1 and not n.keywords and isinstance(n.args[0], (ast.GeneratorExp, ast.ListComp)):
                 return self.cdict_enum(n.args[0]), "dict"
+        if (isinstance(n, ast.Dict) and not n.keys) or (isinstance(n, ast.Call) and isinstance(n.func, ast.Name) and n.func.id == "dict" and not n.args and not n.keywords):
+            return "([] : DictS)", "dictset"      # a local `{}`: insertion-ordered dict whose values are sets / shared set objects
         if isinstance(n, ast.DictComp) and len(n.generators) == 1:
             g = ast.GeneratorExp(ast.Tuple([n.key, n.value], ast.Load()), n.generators)
             return self.cdict_enum(g), "dict"
@@ -416,6 +420,20 @@ class Meth:
                 if ti != "nat" or tx != "nat": raise TranslateError(f"{self.py}: bucket append of types {ti},{tx}")
                 lines += self.wrap(pre, i2, f"{i2}match bucketAppend v_{L} {i} {x} with\n{i2}| none => none\n{i2}| some v_{L} =>\n")
                 continue
+            # `D.setdefault(k, set()).add(x)` on a local dict of sets
+            if isinstance(c, ast.Call) and isinstance(c.func, ast.Attribute) and c.func.attr == "add" and len(c.args) == 1 and not c.keywords \
+                    and isinstance(c.func.value, ast.Call) and isinstance(c.func.value.func, ast.Attribute) and c.func.value.func.attr == "setdefault" \
+                    and isinstance(c.func.value.func.value, ast.Name) and saved.get(c.func.value.func.value.id, (None, None))[1] == "dictset":
+                sd = c.func.value
+                if len(sd.args) != 2 or sd.keywords or not (isinstance(sd.args[1], ast.Call) and isinstance(sd.args[1].func, ast.Name) and sd.args[1].func.id == "set" and not sd.args[1].args):
+                    raise TranslateError(f"{self.py}: setdefault default is not `set()`")
+                L = sd.func.value.id
+                if carried not in (None, L): raise TranslateError(f"{self.py}: two local containers mutated in one loop")
+                carried = L
+                k, tk = self.cexpr(sd.args[0], pre); x, tx = self.cexpr(c.args[0], pre)
+                if tk != "nat" or tx != "nat": raise TranslateError(f"{self.py}: setdefault(..).add(..) of types {tk},{tx}")
+                lines += self.wrap(pre, i2, f"{i2}let v_{L} := dsAdd v_{L} {k} {x}\n")
+                continue
             raise TranslateError(f"{self.py}: unsupported statement in a loop over self._elts: {ast.unparse(b)[:80]}")
         if carried is None: raise TranslateError(f"{self.py}: the loop over self._elts mutates no local container")
         free = [k for k in self._names(st) if k in saved and k != v and k != carried]
@@ -425,7 +443,7 @@ class Meth:
         pa = "".join(" " + saved[k][0] for k in free)
         self.aux.append(
             f"/-- one iteration of `for {v} in self._elts` of `{self.py}`: `none` once something has raised -/\n"
-            f"def {name}Step{ps} (acc : Option (St × List (List Nat))) (v_{v} : Nat) : Option (St × List (List Nat)) :=\n"
+            f"def {name}Step{ps} (acc : Option (St × {TY[saved[carried][1]]})) (v_{v} : Nat) : Option (St × {TY[saved[carried][1]]}) :=\n"
             f"  match acc with\n  | none => none\n  | some (s, v_{carried}) =>\n{lines}{i2}some (s, v_{carried})\n")
         self.locals = saved
         if self.kind != "partial": raise TranslateError(f"{self.py}: loop with raising reads in a method not analysed as raising")
@@ -483,7 +501,7 @@ class Meth:
                 i, ti = self.cexpr(t.slice, pre); v, tv = self.cexpr(st.value, pre)
                 if ti != "nat" or tv != "nat": raise TranslateError(f"{self.py}: store of types {ti},{tv}")
                 if f == "_indx": return f"{{ s with indx := dset s.indx {i} {v} }}"
-                if f in ("_par", "_siz"): return f"{{ s with {FIELDS[f]} := s.{FIELDS[f]}.set {i} {v} }}"
+                if f in ("_par", "_siz", "_elts"): return f"{{ s with {FIELDS[f]} := s.{FIELDS[f]}.set {i} {v} }}"
                 raise TranslateError(f"{self.py}: store into self.{f}[..]")
             if _is_self_attr(t):
                 if t.attr in COUNTERS:
@@ -656,6 +674,26 @@ class Meth:
             return f"{ind}let s := {self.locals[st.iter.id][0]}.foldl (fun (s : St) (v_{v} : Nat) => {body}) s\n" + self.cstmts(rest, ind)
         if _is_self_attr(st.iter, "_elts"):
             return self.cfor_elts(st, rest, ind)
+        it = st.iter
+        if isinstance(it, ast.Call) and not it.args and not it.keywords and isinstance(it.func, ast.Attribute) and it.func.attr == "values" \
+                and isinstance(it.func.value, ast.Name) and self.locals.get(it.func.value.id, (None, None))[1] == "dictset":
+            # `for comp in D.values(): C.update({x: comp for x in comp})`: every member of each value is mapped to that value (a pure fold)
+            D = it.func.value.id
+            body = _strip(st.body)
+            c = body[0].value if len(body) == 1 and isinstance(body[0], ast.Expr) else None
+            ok = isinstance(c, ast.Call) and isinstance(c.func, ast.Attribute) and c.func.attr == "update" and len(c.args) == 1 and not c.keywords \
+                and isinstance(c.func.value, ast.Name) and self.locals.get(c.func.value.id, (None, None))[1] == "dictset" and c.func.value.id != D
+            if ok:
+                C, dc = c.func.value.id, c.args[0]
+                ok = isinstance(dc, ast.DictComp) and len(dc.generators) == 1 and not dc.generators[0].ifs \
+                    and isinstance(dc.generators[0].target, ast.Name) and isinstance(dc.generators[0].iter, ast.Name) and dc.generators[0].iter.id == v \
+                    and isinstance(dc.key, ast.Name) and dc.key.id == dc.generators[0].target.id and isinstance(dc.value, ast.Name) and dc.value.id == v \
+                    and dc.generators[0].target.id != v
+            if not ok: raise TranslateError(f"{self.py}: loop over {D}.values() is not `C.update({{x: comp for x in comp}})`")
+            x = dc.generators[0].target.id
+            lc = self.locals[C][0]
+            return (f"{ind}let {lc} := (dsValues {self.locals[D][0]}).foldl (fun ({lc} : DictS) (v_{v} : List Nat) => "
+                    f"dsUpdate {lc} (v_{v}.map (fun v_{x} => (v_{x}, v_{v})))) {lc}\n") + self.cstmts(rest, ind)
         raise TranslateError(f"{self.py}: for loop over {ast.unparse(st.iter)[:40]}")
 
     # -- whole method --------------------------------------------------------------------------------------------
@@ -787,27 +825,22 @@ def site_unionfind():
     det["roots"] = Meth(unit, "roots", []).compile()
     det["components"] = Meth(unit, "components", []).compile()
     det["__getitem__"] = Meth(unit, "__getitem__").compile()
+    det["__setitem__"] = Meth(unit, "__setitem__").compile()
+    det["component_mapping"] = Meth(unit, "component_mapping", []).compile()
     for name, d in det.items():
         want = {"__len__": ("pure", "nat"), "__contains__": ("pure", "bool"), "add": ("total", "unit"), "__init__": ("total", "unit"),
                 "find": ("partial", "nat"), "connected": ("partial", "bool"), "union": ("partial", "unit"),
                 "component": ("partial", "natlist"), "roots": ("partial", "natlist"),
-                "components": ("partial", "listlist"), "__getitem__": ("partial", "nat")}[name]
+                "components": ("partial", "listlist"), "__getitem__": ("partial", "nat"), "__setitem__": ("partial", "unit"),
+                "component_mapping": ("partial", "dictset")}[name]
         if (d["kind"], d["returns"]) != want:
             raise TranslateError(f"{name}: analysed as {d['kind']} returning {d['returns']}, expected {want[0]} returning {want[1]}")
     out += "\n".join(x for x in unit.out if x)
     out += "\n/-- which exception each `raise` statement raises (method, exception), in source order -/\n"
     out += "def raisesTable : List (String × PyExc) := [" + ", ".join(f"({lean_str(m)}, {e})" for m, e in unit.exc) + "]\n"
-    # shapes
-    sh = {}
-    for name in ("component_mapping",):
-        fn = unit.methods.get(name)
-        if fn is None: raise TranslateError(f"method {name} not found")
-        sh[name] = shape(fn)
-    out += "\n/-- `component_mapping()`: normalised statement list (locals renamed v0, v1, … in order of first occurrence) -/\n"
-    out += "def componentMappingShape : List String := [" + ", ".join(lean_str(s) for s in sh["component_mapping"]) + "]\n"
     out += UF_END
     _, sha = T.write_generated("C20UF", out, header=UF_HEADER)
-    return {"sha": sha, "methods": det, "raises": unit.exc, "init": fields, "shapes": sh, "size_comparison": unit.sizcmp}
+    return {"sha": sha, "methods": det, "raises": unit.exc, "init": fields, "size_comparison": unit.sizcmp}
 
 
 # ---- priority queue ----------------------------------------------------------------------------------------------
@@ -999,9 +1032,26 @@ def site_priority_queue():
     return {"sha": sha, "fields": flds, "lt": lt_text, "data": home, "push": f"({ix}, {ip})", "get": get_text, "pop": pop_text, "empty": empty_text}
 
 
+def _stubbed(gen_name, header, ns, fn):
+    """run a site; when it raises, overwrite Generated/<gen_name>.lean with a STUB (no definitions) so that no definition extracted from
+    an earlier tree stays on disk: the bridges then fail to build against the stub and the build log talks about this tree only"""
+    def run():
+        try:
+            return fn()
+        except Exception as e:
+            msg = str(e).replace("-/", "- /").replace("/-", "/ -")
+            T.write_generated(gen_name, f"namespace {ns}\n/- TRANSLATION FAILED on the current source tree: {type(e).__name__}: {msg}\n"
+                                        f"   (stub: the definitions the bridge theorems need are deliberately absent) -/\n"
+                                        f"def translationFailed : Unit := ()\nend {ns}\n", header=header)
+            raise
+    return run
+
+
 def translate():
     return [
-        T.site("unionfind.py: UnionFind.__init__/__len__/__contains__/__getitem__/add/find/connected/union (+ its size comparison)/component/roots/"
-               "components (state-passing definitions), component_mapping (normalised shape), raise table", site_unionfind),
-        T.site("priority_queue.py: PriorityItem fields + __lt__, PriorityQueue.data home, push/get/pop/front/empty over heapq", site_priority_queue),
+        T.site("unionfind.py: UnionFind.__init__/__len__/__contains__/__getitem__/__setitem__/add/find/connected/union (+ its size comparison)/"
+               "component/roots/components/component_mapping (state-passing definitions), raise table",
+               _stubbed("C20UF", UF_HEADER, "Mouette.Generated.C20", site_unionfind)),
+        T.site("priority_queue.py: PriorityItem fields + __lt__, PriorityQueue.data home, push/get/pop/front/empty over heapq",
+               _stubbed("C20PQ", PQ_HEADER, "Mouette.Generated.C20PQ", site_priority_queue)),
     ]
